@@ -34,7 +34,7 @@ func vfC15(w *vfWorld) {
 	cfg.ReverseProxy = t.Prob("c15.rp", 250)
 	cs.ReverseProxy = cfg.ReverseProxy
 	routePool := []string{"^/public$", "^/public/", "/status", "GET=^/health$", "POST=^/hooks/[a-z]+$", "!=^/private", "GET!=^/api/", "^/assets/.*\\.(css|js)$", "HEAD=^/", "put=^/upload$", "^/$", "DELETE=/tmp"}
-	legacyPool := []string{"^/legacy-open", "/open\\.txt$", "^/l(a|b)$"}
+	legacyPool := []string{"^/legacy-open", "/open\\.txt$", "^/l(a|b)$", "^/share/token=[a-f0-9]+$", "sig=[a-f0-9]+$"} // (a legacy rule is a regex and nothing else, '=' included)
 	var routes []*vfRoute
 	for _, r := range routePool {
 		if t.Prob("c15.route", 300) {
@@ -87,10 +87,10 @@ func vfC15(w *vfWorld) {
 	rep := reps[0]
 	pp := cfg.ProxyPrefix
 	cl := w.NewBrowser("CLIENT", "198.51.100.20:4000")
-	segs := []string{"public", "publicx", "xpublic", "status", "health", "hooks", "deploy", "Deploy", "private", "privatex", "api", "v1", "assets", "site.css", "site.js", "site.cssx", "legacy-open", "open.txt", "openxtxt", "la", "lb", "lc", "upload", "tmp", "x"}
+	segs := []string{"public", "publicx", "xpublic", "status", "health", "hooks", "deploy", "Deploy", "private", "privatex", "api", "v1", "assets", "site.css", "site.js", "site.cssx", "legacy-open", "open.txt", "openxtxt", "la", "lb", "lc", "upload", "tmp", "x", "share", "token=abc123", "deadbeef", "sig=00ff"}
 	queries := []string{"", "", "?x=1", "?next=/public", "?/public", "?a=/status", "?p=^/health$", "?r=/private", "?u=/assets/a.css", "?", "?x=/legacy-open", "?o=open.txt", "?a=b&c=/hooks/deploy", "?q=%2Fpublic%2F", "?x=1#/public"}
 	frags := []string{"#/public", "#/status", "#x.css", "#/health", "#/assets/a.js", "#open.txt", "#/tmp", "#", "#/private", "#/la"}
-	methods := []string{"GET", "GET", "POST", "HEAD", "OPTIONS", "PUT", "DELETE", "get", "Post", "PATCH", "put"}
+	methods := []string{"SIG", "GET", "GET", "POST", "HEAD", "OPTIONS", "PUT", "DELETE", "get", "Post", "PATCH", "put"}
 	served := func(r *vfResp, path string) bool { return len(r.UpHits) > 0 || (path == pp+"/auth" && r.Status == 202) }
 
 	// ---- routes: (method, path, query) ----
